@@ -58,6 +58,14 @@ type PubVariant struct {
 	// SameObject: the earlier publish uses the very same *gedcom.Document
 	// value as the publish under test (Prior must be 0).
 	SameObject bool `json:"same_object,omitempty"`
+	// SameOptions: the earlier publish (of Docs[Prior], or of an empty
+	// document when Prior < 0) and the publish under test share one
+	// *html.PublishShowOptions value.
+	SameOptions bool `json:"same_options,omitempty"`
+	// RealWriter: the publish under test goes through the library's own
+	// DirectoryFileWriter into a temporary directory instead of the
+	// simulated disk; the files are read back afterwards.
+	RealWriter bool `json:"real_writer,omitempty"`
 }
 
 type DiskFault struct {
@@ -184,6 +192,12 @@ func runPublish(t *testing.T, cr *CaseResult, prop string, text string, opts Pub
 // runPublishDoc publishes an already decoded document (used when two
 // publishes have to share one *gedcom.Document value).
 func runPublishDoc(t *testing.T, cr *CaseResult, prop string, doc *gedcom.Document, opts PubOptions, jobs int, sim simrt.Config, today string, faults []DiskFault) (*pubRun, bool) {
+	return runPublishWith(t, cr, prop, doc, opts, nil, false, jobs, sim, today, faults)
+}
+
+// runPublishWith: lib != nil publishes with that options object (shared with
+// an earlier publish); real publishes through core.DirectoryFileWriter.
+func runPublishWith(t *testing.T, cr *CaseResult, prop string, doc *gedcom.Document, opts PubOptions, lib *html.PublishShowOptions, real bool, jobs int, sim simrt.Config, today string, faults []DiskFault) (*pubRun, bool) {
 	labels := map[unsafe.Pointer]int{}
 	labelDoc(labels, doc, 0)
 	sim.Labels = labels
@@ -194,16 +208,42 @@ func runPublishDoc(t *testing.T, cr *CaseResult, prop string, doc *gedcom.Docume
 	disk := &Disk{faults: faults}
 	run := &pubRun{}
 	var perr error
+	if lib == nil {
+		lib = opts.lib()
+	}
+	dir := ""
+	if real {
+		d, err := os.MkdirTemp("", "verif-publish-")
+		if err != nil {
+			return nil, false
+		}
+		dir = d
+		defer os.RemoveAll(dir)
+	}
 	run.res, _ = runSim(t, cr, prop, sim, func() {
-		publisher := html.NewPublisher(doc, opts.lib())
+		publisher := html.NewPublisher(doc, lib)
+		if real {
+			perr = publisher.Publish(core.NewDirectoryFileWriter(dir), jobs)
+			return
+		}
 		perr = publisher.Publish(disk, jobs)
 	})
 	run.err = perr
 	run.events = disk.events
 	run.fired = disk.fired
+	if real {
+		// read the directory back as if it had been the recorded history
+		entries, _ := os.ReadDir(dir)
+		for i, e := range entries {
+			data, err := os.ReadFile(dir + "/" + e.Name())
+			if err == nil {
+				run.events = append(run.events, DiskEvent{Seq: i + 1, Name: e.Name(), Kind: "file", Data: data})
+			}
+		}
+	}
 	run.files = map[string][]byte{}
 	run.kinds = map[string]string{}
-	for _, e := range disk.events {
+	for _, e := range run.events {
 		if e.Err != "" {
 			continue
 		}
@@ -605,6 +645,16 @@ func genPublishCase(prop, tier string, r *rand.Rand) *Case {
 			po := genPubOptions(r, []string{"show", "hide", "placeholder"})
 			v.PriorOptions = &po
 			v.SameObject = r.IntN(2) == 0
+		case 2:
+			if r.IntN(2) == 0 {
+				v.SameOptions = true
+				if r.IntN(2) == 0 {
+					v.Prior = 1
+				}
+			} else {
+				v.RealWriter = true
+				v.Jobs = pick(r, []int{2, 8, 16})
+			}
 		}
 		cfg.Variants = append(cfg.Variants, v)
 	}
@@ -690,7 +740,31 @@ func runPublishCase(t *testing.T, c *Case) *CaseResult {
 	// variants: schedule, jobs, map order, process history
 	for vi, v := range cfg.Variants {
 		var run *pubRun
-		if v.Prior == 0 && v.SameObject && v.PriorOptions != nil {
+		if v.SameOptions || v.RealWriter {
+			doc, err := decode(c.Docs[0])
+			if err != nil {
+				continue
+			}
+			var lib *html.PublishShowOptions
+			if v.SameOptions {
+				lib = cfg.Options.lib()
+				priorText := "0 HEAD\n0 TRLR\n"
+				if v.Prior >= 0 && v.Prior < len(c.Docs) {
+					priorText = c.Docs[v.Prior]
+				}
+				if pd, err := decode(priorText); err == nil {
+					sub := &CaseResult{Prop: prop, Probes: map[string]int64{}, Counters: map[string]int64{}}
+					runPublishWith(t, sub, prop, pd, cfg.Options, lib, false, 1, simrt.Config{Mode: "default", MapOrder: "identity"}, c.Today, nil)
+					cr.Runs++
+					cr.count("history.prior_publish", 1)
+					cr.count("history.same_options_object", 1)
+				}
+			}
+			run, _ = runPublishWith(t, cr, prop, doc, cfg.Options, lib, v.RealWriter, v.Jobs, v.Sim, c.Today, nil)
+			if v.RealWriter {
+				cr.count("disk.real_directory_writer", 1)
+			}
+		} else if v.Prior == 0 && v.SameObject && v.PriorOptions != nil {
 			doc, err := decode(c.Docs[0])
 			if err != nil {
 				continue
@@ -718,10 +792,17 @@ func runPublishCase(t *testing.T, c *Case) *CaseResult {
 		}
 		// a name that two pages share holds whichever was written last: that
 		// is the collision oracle's subject, not a second finding
+		if v.RealWriter && run.err != nil {
+			cr.observe("publishing through the real DirectoryFileWriter returned an error: " + clip(run.err.Error(), 80))
+			continue
+		}
 		if d := diffFiles(canon.files, run.files, canon.collided(), run.collided()); d != "" {
 			kind := "schedule/jobs/map-order"
-			if v.Prior >= 0 {
+			if v.Prior >= 0 || v.SameOptions {
 				kind = "earlier publish in the same process"
+			}
+			if v.RealWriter {
+				kind = "the library's own directory writer"
 			}
 			cr.violate(prop+"/determinism", diffClass(canon.files, run.files)+" under "+kind,
 				fmt.Sprintf("variant %d (jobs=%d mode=%s map=%s prior=%d) vs canonical run: %s", vi, v.Jobs, v.Sim.Mode, v.Sim.MapOrder, v.Prior, d))
